@@ -987,7 +987,16 @@ static void enum_visit(const json& v)
 {
     const std::string name = v["name"].get<std::string>();
     const auto& eo = registry::get().enums.at(name);
-    const std::uint64_t x = v["x"].get<std::uint64_t>();
+    // the value's little-endian bytes (64-bit values are no TLC integers)
+    std::uint64_t x = 0;
+    {
+        int sh = 0;
+        for(const auto& b : v["x"])
+        {
+            x |= static_cast<std::uint64_t>(b.get<unsigned>()) << sh;
+            sh += 8;
+        }
+    }
     const std::string exp = v["tag"].get<std::string>();
     rep.note_distinct("enum" + name + std::to_string(x));
     json cs = {{"enum", name}, {"x", x}, {"schema", g_schema}, {"expected", exp}};
